@@ -87,7 +87,7 @@ func TestVerifOPRFTamper(t *testing.T) {
 	lib.Mandatory("tamper:evaluation:rejected", "tamper:proof.c:rejected", "tamper:proof.s:rejected", "tamper:pk:rejected",
 		"tamper:info:rejected", "tamper:blinded:rejected", "tamper:mode:rejected", "tamper:noncanonical-scalar-tried",
 		"tamper:element-decode-rejected", "tamper:element-bitflip-decoded", "tamper:honest-accepted")
-	per := lib.Scale(10, 150)
+	per := lib.Scale(10, 32)
 	type cs struct {
 		si suiteInfo
 		m  oprf.Mode
@@ -331,6 +331,21 @@ func TestVerifOPRFTamper(t *testing.T) {
 				if evX, err := oEvaluate(su, m, sk, &oprf.EvaluationRequest{Elements: es}, info); err == nil {
 					judge("blinded", "swapped-with-next", "element", i, fd, evX, pk, info, nil)
 				}
+			}
+		}
+
+		// ---- the server evaluated the request in another order and the
+		// evaluations were put back in the client's order: every pair is
+		// correct, only the proof belongs to the permuted batch (the batch
+		// index is part of the composite weights)
+		if n > 1 && !req.Elements[0].IsEqual(req.Elements[1]) {
+			es := append([]oprf.Blinded(nil), req.Elements...)
+			es[0], es[1] = es[1], es[0]
+			if evX, err := oEvaluate(su, m, sk, &oprf.EvaluationRequest{Elements: es}, info); err == nil {
+				back := append([]oprf.Evaluated(nil), evX.Elements...)
+				back[0], back[1] = back[1], back[0]
+				pbX, _ := evX.Proof.MarshalBinary()
+				judge("proof.c", "proof-of-permuted-request", "canonical", 0, fd, &oprf.Evaluation{Elements: back, Proof: evX.Proof}, pk, info, pbX)
 			}
 		}
 
